@@ -224,7 +224,7 @@ for _maxit, _x0 in ((1, False), (2, False), (2, True), (3, True)):
         it.summaries[f'{IT}:orth'] = some_directions
         watch = it.watches.setdefault(f'{IT}:CG.solve', {})
         for nm in ('r', 'x', 'tval', 'b'):
-            watch[nm] = []
+            watch[nm] = V.GhostList(nm, 'CG.solve')
         cg = it.call(it.get_function(f'{IT}:CG'), [], dict(tol=tol, maxit=maxit, restart=50, verbosity=0))
         it.call(it.getattr(cg, 'update'), [A])
         n_tr = len(it.trace)
